@@ -271,7 +271,8 @@ fn nth_programs(n: usize, back: bool) -> Vec<Vec<St>> {
             prefixes.push(vec![*a, *b]);
         }
     }
-    let mut ks = vec![0, 1, 2, n];
+    // (usize::MAX: a cursor that adds the argument before looking at the bound must not wrap)
+    let mut ks = vec![0, 1, 2, n, n + 1, usize::MAX - 1, usize::MAX];
     ks.dedup();
     for p in &prefixes {
         for &k in &ks {
